@@ -451,6 +451,11 @@ pub trait Vec1View<T>: TIter<T> {
         V2: Vec1View<T2>,
         F: FnMut(Self::SliceOutput<'_>, V2::SliceOutput<'_>) -> OT,
     {
+        // `other` is sliced unchecked with the window bounds of `self`
+        assert!(
+            other.len() >= self.len(),
+            "the second series is shorter than the first"
+        );
         let iter = (1..self.len() + 1)
             .zip(std::iter::repeat_n(0, window - 1).chain(0..self.len()))
             .map(|(end, start)| unsafe {
@@ -687,6 +692,11 @@ pub trait Vec1View<T>: TIter<T> {
         // a zero window would leave every slot of `out` unwritten
         assert!(window > 0, "window must be greater than 0");
         let len = self.len();
+        // `other` is read unchecked at every index of `self`
+        assert!(
+            other.len() >= len,
+            "the second series is shorter than the first"
+        );
         let window = window.min(len);
         if window == 0 {
             return;
@@ -923,6 +933,11 @@ pub trait Vec1View<T>: TIter<T> {
         // a zero window would leave every slot of `out` unwritten
         assert!(window > 0, "window must be greater than 0");
         let len = self.len();
+        // `other` is read unchecked at every index of `self`
+        assert!(
+            other.len() >= len,
+            "the second series is shorter than the first"
+        );
         let window = window.min(len);
         if window == 0 {
             return;
